@@ -1297,10 +1297,14 @@ static qtreetbl_obj_t *remove_obj(qtreetbl_t *tbl, qtreetbl_obj_t *obj,
             assert(minobj != NULL);
             free(obj->name);
             free(obj->data);
-            obj->name = qmemdup(minobj->name, minobj->namesize);
+            // take over the successor's buffers; nothing to allocate, so
+            // removal can not fail half-way.
+            obj->name = minobj->name;
             obj->namesize = minobj->namesize;
-            obj->data = qmemdup(minobj->data, minobj->datasize);
+            obj->data = minobj->data;
             obj->datasize = minobj->datasize;
+            minobj->name = NULL;
+            minobj->data = NULL;
             obj->right = remove_min(obj->right);
             tbl->num--;
         } else {
